@@ -343,4 +343,179 @@ theorem marksFor_last (gs : List (Glyph α)) (hgid : (gs.map (·.gid)).Pairwise 
   refine ⟨lastFor_singleton _ _ _ hfilter, ?_⟩
   intro he; rw [he] at hfilter; simp at hfilter
 
+omit [DecidableEq α] in
+theorem mbBases_filter (gs : List (Glyph α)) (hgid : (gs.map (·.gid)).Pairwise (· ≠ ·))
+    (hkind : ∀ g ∈ gs, (g.anchors.map (·.kind)).Pairwise (· ≠ ·))
+    (g : Glyph α) (hg : g ∈ pruned gs) (htb : treatAsBase gs g = true)
+    (ag : Anchor α) (hag : ag ∈ g.anchors) (n : Name) (hk : ag.kind = .base n) :
+    (mbBases gs n).filter (fun x => x.1 == g.gid) = [(g.gid, [some ag.val])] := by
+  unfold mbBases
+  rw [filter_flatMap_key (fun (g : Glyph α) => g.gid) (pruned gs) (pruned_gids gs hgid) _ ?_ g hg]
+  · have := anchorsOfKind_eq g (pruned_kinds gs hkind g hg) ag hag
+    rw [hk] at this
+    simp [htb, this]
+  · intro g x hx
+    split at hx
+    · obtain ⟨v, _, rfl⟩ := List.mem_map.mp hx; rfl
+    · cases hx
+
+omit [DecidableEq α] in
+theorem mkBases_filter (gs : List (Glyph α)) (hgid : (gs.map (·.gid)).Pairwise (· ≠ ·))
+    (hkind : ∀ g ∈ gs, (g.anchors.map (·.kind)).Pairwise (· ≠ ·))
+    (m : Glyph α) (hm : m ∈ pruned gs) (hmark : isMarkGlyph gs m = true)
+    (am : Anchor α) (ham : am ∈ m.anchors) (n : Name) (hkm : am.kind = .mark n)
+    (g : Glyph α) (hg : g ∈ pruned gs) (hgm : isMarkGlyph gs g = true)
+    (ag : Anchor α) (hag : ag ∈ g.anchors) (hk : ag.kind = .base n) :
+    (mkBases gs n).filter (fun x => x.1 == g.gid) = [(g.gid, [some ag.val])] := by
+  have hcont : (markAnchorNames gs).contains n = true := by
+    rw [List.contains_iff_mem]
+    unfold markAnchorNames
+    rw [List.mem_flatMap]
+    refine ⟨m, List.mem_filter.mpr ⟨hm, hmark⟩, List.mem_filterMap.mpr ⟨am, ham, ?_⟩⟩
+    rw [hkm]; rfl
+  unfold mkBases
+  rw [if_pos hcont]
+  rw [filter_flatMap_key (fun (g : Glyph α) => g.gid) (pruned gs) (pruned_gids gs hgid) _ ?_ g hg]
+  · have := anchorsOfKind_eq g (pruned_kinds gs hkind g hg) ag hag
+    rw [hk] at this
+    simp [hgm, this]
+  · intro g x hx
+    split at hx
+    · obtain ⟨v, _, rfl⟩ := List.mem_map.mp hx; rfl
+    · cases hx
+
+omit [DecidableEq α] in
+theorem ligBases_filter (gs : List (Glyph α)) (hgid : (gs.map (·.gid)).Pairwise (· ≠ ·))
+    (g : Glyph α) (hg : g ∈ pruned gs) (hml : mightBeLiga gs g = true)
+    (ag : Anchor α) (hag : ag ∈ g.anchors) (n : Name) (i : Nat) (hk : ag.kind = .ligature n i) :
+    ∃ mx, i ≤ mx ∧ (ligBases gs n).filter (fun x => x.1 == g.gid) = [(g.gid, ligComponents g n mx)] := by
+  obtain ⟨mx, hmx, hle⟩ := maxLigIndex_ge g ag hag i (by rw [hk]; rfl)
+  refine ⟨mx, hle, ?_⟩
+  have hhas : hasLigAnchor g n = true := by
+    unfold hasLigAnchor
+    rw [List.any_eq_true]
+    exact ⟨ag, hag, by rw [hk]; simp⟩
+  unfold ligBases
+  rw [filter_flatMap_key (fun (g : Glyph α) => g.gid) (pruned gs) (pruned_gids gs hgid) _ ?_ g hg]
+  · simp [hml, hhas, hmx]
+  · intro g x hx
+    split at hx
+    · split at hx
+      · simp only [List.mem_singleton] at hx; rw [hx]
+      · cases hx
+    · cases hx
+
+omit [DecidableEq α] in
+theorem ne_nil_of_filter_eq_singleton {β : Type} (xs : List β) (q : β → Bool) (b : β) (h : xs.filter q = [b]) : xs ≠ [] := by
+  intro he; rw [he] at h; simp at h
+
+/-- **Coverage, counting form.** -/
+theorem pair_covered_once (gs : List (Glyph α))
+    (hgid : (gs.map (·.gid)).Pairwise (· ≠ ·))
+    (hkind : ∀ g ∈ gs, (g.anchors.map (·.kind)).Pairwise (· ≠ ·))
+    (hlig : ∀ g ∈ gs, ∀ a ∈ g.anchors, ∀ n i, a.kind = .ligature n i → 1 ≤ i)
+    (p : Pair α) (hp : p ∈ sourcePairs gs) :
+    ((allLookups gs).filter (·.carries p)).length = 1 ∧
+    ∃ l ∈ allLookups gs, l.kind = p.kind ∧ l.name = p.name ∧
+      l.markAnchor p.mark = some p.markVal ∧ l.baseAnchor p.base (p.comp - 1) = some p.baseVal := by
+  obtain ⟨m, hm, hmark, am, ham, hkm, hpm, hpmv, g, hg, ag, hag, hpb, hpbv, hcase⟩ := mem_sourcePairs gs p hp
+  obtain ⟨hlast, hmne⟩ := marksFor_last gs hgid hkind m hm hmark am ham p.name hkm
+  have hn : p.name ∈ groupNames gs := mem_groupNames gs m hm am ham p.name (by rw [hkm]; rfl)
+  -- it suffices to show that the lookup for (kind, name) has non-empty sides and the two anchors
+  suffices h : bsOf gs p.kind p.name ≠ [] ∧ msOf gs p.kind p.name ≠ [] ∧
+      (mkLookup gs p.kind p.name).markAnchor p.mark = some p.markVal ∧
+      (mkLookup gs p.kind p.name).baseAnchor p.base (p.comp - 1) = some p.baseVal by
+    obtain ⟨hb, hms, hma, hba⟩ := h
+    have hc : (mkLookup gs p.kind p.name).carries p = true := by
+      unfold Lookup.carries
+      rw [hma, hba]
+      simp [mkLookup]
+    obtain ⟨hcount, hmem⟩ := count_one gs p hn hb hms hc
+    exact ⟨hcount, mkLookup gs p.kind p.name, hmem, rfl, rfl, hma, hba⟩
+  rcases hcase with ⟨hk, hkg, hgm, hcomp⟩ | ⟨hk, hkg, hgm, htb, hcomp⟩ | ⟨hk, hkg, hml⟩
+  · -- mark-to-mark
+    have hf := mkBases_filter gs hgid hkind m hm hmark am ham p.name hkm g hg hgm ag hag hkg
+    have hbne := ne_nil_of_filter_eq_singleton _ _ _ hf
+    have hms : mkMarks gs p.name = marksFor gs p.name := by
+      unfold mkMarks
+      have : (mkBases gs p.name).isEmpty = false := by cases h : mkBases gs p.name <;> simp_all
+      simp [this]
+    rw [hk]
+    refine ⟨by simpa [bsOf] using hbne, by simpa [msOf, hms] using hmne, ?_, ?_⟩
+    · simp only [Lookup.markAnchor, mkLookup, msOf, hms, hpm, hpmv]; exact hlast
+    · simp only [Lookup.baseAnchor, mkLookup, bsOf, hpb, hpbv]
+      rw [hf]; simp
+  · -- mark-to-base
+    have hf := mbBases_filter gs hgid hkind g hg htb ag hag p.name hkg
+    have hbne := ne_nil_of_filter_eq_singleton _ _ _ hf
+    rw [hk]
+    refine ⟨by simpa [bsOf] using hbne, by simpa [msOf] using hmne, ?_, ?_⟩
+    · simp only [Lookup.markAnchor, mkLookup, msOf, hpm, hpmv]; exact hlast
+    · simp only [Lookup.baseAnchor, mkLookup, bsOf, hpb, hpbv]
+      rw [hf]; simp
+  · -- mark-to-ligature
+    obtain ⟨mx, hle, hf⟩ := ligBases_filter gs hgid g hg hml ag hag p.name p.comp hkg
+    have hbne := ne_nil_of_filter_eq_singleton _ _ _ hf
+    have hms : ligMarks gs p.name = marksFor gs p.name := by
+      unfold ligMarks
+      have : (ligBases gs p.name).isEmpty = false := by cases h : ligBases gs p.name <;> simp_all
+      simp [this]
+    obtain ⟨g0, hg0, hag0⟩ := pruned_anchor_mem gs g hg ag hag
+    have hpos : 1 ≤ p.comp := hlig g0 hg0 ag hag0 p.name p.comp hkg
+    rw [hk]
+    refine ⟨by simpa [bsOf] using hbne, by simpa [msOf, hms] using hmne, ?_, ?_⟩
+    · simp only [Lookup.markAnchor, mkLookup, msOf, hms, hpm, hpmv]; exact hlast
+    · simp only [Lookup.baseAnchor, mkLookup, bsOf, hpb, hpbv, lastFor]
+      rw [hf]
+      have hlt : p.comp - 1 < mx := by omega
+      have hidx : p.comp - 1 + 1 = p.comp := by omega
+      have hone := anchorsOfKind_eq g (pruned_kinds gs hkind g hg) ag hag
+      rw [hkg] at hone
+      simp [ligComponents, hlt, hidx, hone]
+
+omit [DecidableEq α] in
+theorem mem_marksFor (gs : List (Glyph α)) (n : Name) (x : Nat × α) (hx : x ∈ marksFor gs n) :
+    ∃ g ∈ pruned gs, g.gid = x.1 ∧ isMarkGlyph gs g = true := by
+  unfold marksFor at hx
+  obtain ⟨g, hg, hx⟩ := List.mem_flatMap.mp hx
+  split at hx
+  · rename_i hmk
+    obtain ⟨v, _, rfl⟩ := List.mem_map.mp hx
+    exact ⟨g, hg, rfl, hmk⟩
+  · cases hx
+
+omit [DecidableEq α] in
+/-- every glyph a lookup treats as an attaching mark is a mark glyph of the source -/
+theorem lookup_marks_are_mark_glyphs (gs : List (Glyph α)) (l : Lookup α) (hl : l ∈ allLookups gs)
+    (x : Nat × α) (hx : x ∈ l.marks) :
+    ∃ g0 ∈ gs, g0.gid = x.1 ∧ (classesEmpty gs = true ∨ g0.cls = some .mark) := by
+  have hmk : ∃ k n, l = mkLookup gs k n := by
+    unfold allLookups at hl
+    simp only [List.mem_append] at hl
+    rcases hl with (hl | hl) | hl
+    all_goals
+      rw [lookupsOf_eq, List.mem_filterMap] at hl
+      obtain ⟨n, _, hn⟩ := hl
+      exact ⟨_, n, emit_kind_name gs _ n l hn⟩
+  obtain ⟨k, n, rfl⟩ := hmk
+  have hx' : x ∈ marksFor gs n := by
+    cases k
+    · exact hx
+    · simp only [mkLookup, msOf, ligMarks] at hx
+      split at hx
+      · cases hx
+      · exact hx
+    · simp only [mkLookup, msOf, mkMarks] at hx
+      split at hx
+      · cases hx
+      · exact hx
+  obtain ⟨g, hg, hgid, hmark⟩ := mem_marksFor gs n x hx'
+  obtain ⟨g0, hg0, h1, h2, _⟩ := mem_pruned gs g hg
+  refine ⟨g0, hg0, by rw [← h1, hgid], ?_⟩
+  unfold isMarkGlyph at hmark
+  simp only [Bool.and_eq_true, Bool.or_eq_true, beq_iff_eq] at hmark
+  rcases hmark.1 with h | h
+  · exact Or.inl h
+  · exact Or.inr (by rw [← h2, h])
+
 end Fontc.Marks
